@@ -3,7 +3,7 @@
    behaviour executed on the real grpc.Server (two real ClientConns over bufconn in a synctest
    bubble).  Line formats:
      {"ev":"reset"}
-     {"ev":"step","a":"start"|"cancel"|"finish"|"gstop"|"hstop"|"fstop","c":c,"r":r,"k":code,
+     {"ev":"step","a":"start"|"cancel"|"finish"|"gstop"|"hstop"|"fstop"|"gfinish","c":c,"r":r,"k":code,
       "h":[[..]],   handler state per connection / RPC: "none" | "running" | "returned"
       "cx":[[..]],  the handler saw ctx.Done() while running
       "cl":[[..]],  client result: 98 not started, 99 no result yet, else the status code
@@ -31,17 +31,18 @@ Model(e) == CASE e.a = "start"  -> Start(e.c, e.r)
               [] e.a = "cancel" -> Cancel(e.c, e.r)
               [] e.a = "finish" -> Finish(e.c, e.r, e.k)
               [] e.a = "gstop"  -> GStop
+              [] e.a = "gfinish" -> GFinish(e.c, e.r, e.k)
               [] e.a = "hstop"  -> HStop
               [] e.a = "fstop"  -> FStop
 
 Inputs(e) ==
-  /\ gsIn' = (gsIn \/ e.a = "gstop")
+  /\ gsIn' = (gsIn \/ e.a \in {"gstop", "gfinish"})
   /\ stopIn' = (stopIn \/ e.a \in {"hstop", "fstop"})
   /\ started' = IF e.a = "start"
                   THEN [started EXCEPT ![e.c][e.r] = IF gsIn THEN "lategs" ELSE IF stopIn THEN "latestop" ELSE "early"]
                   ELSE started
   /\ cancelledIn' = IF e.a = "cancel" THEN [cancelledIn EXCEPT ![e.c][e.r] = TRUE] ELSE cancelledIn
-  /\ finOk' = IF e.a = "finish" /\ started[e.c][e.r] = "early" /\ ~cancelledIn[e.c][e.r] /\ ~stopIn
+  /\ finOk' = IF e.a \in {"finish", "gfinish"} /\ started[e.c][e.r] = "early" /\ ~cancelledIn[e.c][e.r] /\ ~stopIn
                 THEN [finOk EXCEPT ![e.c][e.r] = e.k] ELSE finOk
   /\ openAtStop' = IF e.a \in {"hstop", "fstop"}
                      THEN [c \in Conns |-> [r \in Rpcs |->
